@@ -28,6 +28,8 @@ METHOD_BADCHAR_RE = re.compile("[a-z#]")
 # usually 1.0 or 1.1 - RFC9112 permits restricting to single-digit versions
 VERSION_RE = re.compile(r"HTTP/(\d)\.(\d)")
 RFC9110_5_5_INVALID_AND_DANGEROUS = re.compile(r"[\0\r\n]")
+# RFC9112 3.2: no whitespace, no control characters in the request-target
+REQUEST_TARGET_BADCHAR_RE = re.compile(r"[\x00-\x20\x7f]")
 
 
 class Message:
@@ -437,6 +439,9 @@ class Request(Message):
         # 4. asterisk-form, which is an asterisk (`\x2A`)
         # => manually reject one always invalid URI: empty
         if len(self.uri) == 0:
+            raise InvalidRequestLine(bytes_to_str(line_bytes))
+        # urlsplit silently removes TAB/CR/LF, a bare CR or LF splits log lines
+        if REQUEST_TARGET_BADCHAR_RE.search(self.uri):
             raise InvalidRequestLine(bytes_to_str(line_bytes))
 
         try:
